@@ -20,7 +20,10 @@ CONSTANTS NFrameEv,   \* number of frame-level events between Game Start and Gam
           HasMeta,    \* BOOLEAN: the file carries a metadata element
           MaxChunk,   \* largest chunk the scheduler hands out
           Cuts,       \* set of cut points to explore (subset of 0..N); {N} = intact file only
-          Variant     \* {} intended; "M23": skipping always seeks; "M17": EOF accepted for "}"
+          Variant,    \* {} intended; "M23": skipping always seeks; "M17": EOF accepted for "}"
+          InProgress  \* BOOLEAN: the header declares raw length 0 (a replay still being recorded):
+                      \* the event loop runs until it meets a Game End, nothing after it is skipped,
+                      \* and the skip option cannot be used
 
 (* ---- the abstract file: segments with sizes ---- *)
 HdrSize == 2        \* signature + declared raw length
@@ -59,7 +62,14 @@ CallsFull ==
        Call("exact", 1, "start_cmd"), Call("exact", StartSize - 1, "start") >>
     \o [i \in 1..(2 * NFrameEv) |-> IF i % 2 = 1 THEN Call("exact", 1, "event_cmd") ELSE Call("exact", EvSize - 1, "event")]
     \o << Call("exact", 1, "end_cmd"), Call("exact", EvSize - 1, "end") >>
-    \o (IF DupEnd THEN << Call("exact", EvSize, "tail") >> ELSE <<>>)
+    \* with a declared length the rest of the raw element (a duplicated Game End) is swallowed here;
+    \* an in-progress replay has no declared length, so nothing is swallowed
+    \o (IF DupEnd /\ ~InProgress THEN << Call("exact", EvSize, "tail") >> ELSE <<>>)
+
+\* the skip option needs the declared length: refused at once for an in-progress replay
+CallsSkipRefused ==
+    << Call("exact", HdrSize, "header"), Call("exact", 1, "table_cmd"), Call("exact", TableSize - 1, "table"),
+       Call("exact", 1, "start_cmd"), Call("exact", StartSize - 1, "start"), Call("refuse", 0, "skip") >>
 
 CallsSkip(hash) ==
     << Call("exact", HdrSize, "header"), Call("exact", 1, "table_cmd"), Call("exact", TableSize - 1, "table"),
@@ -72,7 +82,13 @@ CallsTail ==
     \o (IF HasMeta THEN << Call("exact", MetaKeySize - 1, "meta_key"), Call("exact", MetaBodySize, "meta_body"),
                             Call("exact", 1, "close") >> ELSE <<>>)
 
-Calls(skip, hash) == (IF skip THEN CallsSkip(hash) ELSE CallsFull) \o CallsTail
+\* after the raw element the reader expects the metadata key or the closing brace; for an in-progress replay
+\* with a duplicated Game End the next byte is that event's command byte instead: rejected
+CallsBadTail == << Call("exact", 1, "meta_or_close"), Call("refuse", 0, "unexpected_byte") >>
+
+Calls(skip, hash) ==
+    IF skip /\ InProgress THEN CallsSkipRefused
+    ELSE (IF skip THEN CallsSkip(hash) ELSE CallsFull) \o (IF InProgress /\ DupEnd THEN CallsBadTail ELSE CallsTail)
 
 VARIABLES
     skip, hash,   \* the reader's options
@@ -141,7 +157,13 @@ Seek ==
     /\ Advance
     /\ UNCHANGED <<skip, hash, cut, hashed, sched>>
 
-Next == ReadChunk \/ HitEof \/ ZeroCall \/ Seek
+\* the reader gives up (not an I/O matter)
+Refuse ==
+    /\ outcome = "run" /\ CurCall.kind = "refuse"
+    /\ outcome' = "err"
+    /\ UNCHANGED <<skip, hash, cut, ci, need, pos, hasher, hashed, sched>>
+
+Next == ReadChunk \/ HitEof \/ ZeroCall \/ Seek \/ Refuse
 Spec == Init /\ [][Next]_vars /\ WF_vars(Next)
 
 (* ---- properties ---- *)
@@ -169,7 +191,7 @@ CutClass ==
                        ELSE IF cut = SegStart(i) + Segments[i].size - 1 THEN "last_byte_missing" ELSE "inside"]
 
 ExportJson == [ skip |-> skip, hash |-> hash, chunks |-> sched, cut |-> CutClass, outcome |-> outcome,
-                nframe_ev |-> NFrameEv, dup |-> DupEnd, meta |-> HasMeta,
+                nframe_ev |-> NFrameEv, dup |-> DupEnd, meta |-> HasMeta, in_progress |-> InProgress,
                 digest |-> IF hasher = "on" THEN "all" ELSE "none" ]
 Export == outcome # "run" => PrintT(<<"SCHED", ToJson(ExportJson)>>)
 
